@@ -61,12 +61,20 @@ def run(prop, tier, seed, theorems, make_pairs, level_note, rule, n_pairs=None, 
     epflow.run_impl(allc)
     # correspondence on the first n_model base cases (all numeric fields)
     mcases = [b for b, _ in pairs[:n_model]]
-    R.harness_errors.extend(epflow.run_model(mcases, prop))
+    first_pass_errs = epflow.run_model(mcases, prop)     # shards cut short are retried case by case below
     for c in mcases:
         if not epflow.impl_inputs_ok(c):
             continue
         R.evaluations += len(c.evals)
         bad = epflow.compare_case(c)
+        if epflow.model_missing(bad):
+            epflow.run_model([c], prop)
+            bad = epflow.compare_case(c)
+        if epflow.model_missing(bad):
+            R.harness_errors.append("case %s: the model's evaluation did not complete (time limit); case skipped" % c.cid)
+            R.harness_errors.extend(first_pass_errs[:3])
+            first_pass_errs = []
+            continue
         if bad:
             R.broken.append(("correspondence model/implementation", {"case": c.cid, "first": bad[:3], "replay": c.replay()}))
         else:
